@@ -68,6 +68,13 @@ def handleC14 : Sexp → Option Sexp
   | .list [.atom "inner_dual_get", h, w, base, y, x] => do
     let g := InnerFrame.fresh (← base.toNat?) (← h.toNat?) (← w.toNat?)
     some (pyS idS (g.dual.getitem (← y.toInt?) (← x.toInt?)))
+  -- cell_neighbors / vertex_neighbors of the frame returned by `dual()` of a fresh inner frame
+  | .list [.atom "inner_dual_cell", h, w, base, y, x] => do
+    let g := InnerFrame.fresh (← base.toNat?) (← h.toNat?) (← w.toNat?)
+    some (pyS idsS (g.dual.cellNeighbors (← y.toInt?) (← x.toInt?)))
+  | .list [.atom "inner_dual_vertex", h, w, base, y, x] => do
+    let g := InnerFrame.fresh (← base.toNat?) (← h.toNat?) (← w.toNat?)
+    some (pyS idsS (g.dual.vertexNeighbors (← y.toInt?) (← x.toInt?)))
   -- executable spec side (Spec/FrameGeom.lean: search of the segment set)
   | .list [.atom "spec_get", h, w, base, y, x] => do
     let H ← h.toNat?; let W ← w.toNat?; let base ← base.toNat?
